@@ -849,17 +849,19 @@ impl<T> TooDee<T> {
         assert!(index <= self.num_cols);
         // Use the reverse iterator
         let mut rev_iter = data.into_iter().rev();
-        if self.num_cols == 0 {
-            self.num_rows = rev_iter.len();
-        } else {
-            assert_eq!(self.num_rows, rev_iter.len());
+        // `self` is left untouched until nothing before the shift can panic any more
+        // (`rev_iter.len()`, the length check and `reserve()` all can).
+        let num_rows = rev_iter.len();
+        if self.num_cols != 0 {
+            assert_eq!(self.num_rows, num_rows);
         }
+        let num_cols = self.num_cols;
         
-        self.reserve(self.num_rows);
+        self.reserve(num_rows);
         
         let old_len = self.data.len();
-        let new_len = old_len + self.num_rows;
-        let suffix_len = self.num_cols - index;
+        let new_len = old_len + num_rows;
+        let suffix_len = num_cols - index;
         
         unsafe {
             
@@ -868,7 +870,11 @@ impl<T> TooDee<T> {
             // Alternative (less performant) approaches would be:
             // - append the new column to the array and use swapping to shuffle everything into place.
             // - store the new column data in a temporary location before shifting the memory and inserting values.
+            // The dimensions are zeroed together with the length, so that the array is still
+            // consistent if `rev_iter.next()` panics.
             self.data.set_len(0);
+            self.num_cols = 0;
+            self.num_rows = 0;
             
             let p = self.data.as_mut_ptr();
             let mut read_p = p.add(old_len);
@@ -882,18 +888,18 @@ impl<T> TooDee<T> {
                 }
             };
 
-            if self.num_rows > 0 {
+            if num_rows > 0 {
                 // start with suffix copy
                 read_p = read_p.sub(suffix_len);
                 write_p = write_p.sub(suffix_len);
                 ptr::copy(read_p, write_p, suffix_len);
                 write_p = write_p.sub(1);
                 ptr::write(write_p, next_or_panic(&mut rev_iter));
-                for _ in 0..(self.num_rows - 1) {
+                for _ in 0..(num_rows - 1) {
                     // copy suffix and prefix as a single block until we are on the final element
-                    read_p = read_p.sub(self.num_cols);
-                    write_p = write_p.sub(self.num_cols);
-                    ptr::copy(read_p, write_p, self.num_cols);
+                    read_p = read_p.sub(num_cols);
+                    write_p = write_p.sub(num_cols);
+                    ptr::copy(read_p, write_p, num_cols);
                     write_p = write_p.sub(1);
                     ptr::write(write_p, next_or_panic(&mut rev_iter));
                 }
@@ -907,9 +913,10 @@ impl<T> TooDee<T> {
             self.data.set_len(new_len);
         }
 
-        // update the number of columns
-        if self.num_rows > 0 {
-            self.num_cols += 1;
+        // restore the dimensions, now including the new column
+        if num_rows > 0 {
+            self.num_cols = num_cols + 1;
+            self.num_rows = num_rows;
         }
     }
 
